@@ -610,6 +610,20 @@ func (r *c20Rig) load(sel string, env map[string]string, file *string) (obs c20O
 		} else if err := os.WriteFile(path, []byte(*file), 0o644); err != nil {
 			return c20Obs{Outcome: "write-error", Err: err.Error()}
 		}
+		// every second start-up: files with the SAME base name and another extension lie next to the selected one (an
+		// old json/toml export of the configuration); only the selected file may be read
+		stem := strings.TrimSuffix(path, filepath.Ext(path))
+		decoys := []string{stem + ".json", stem + ".toml"}
+		if file != nil && (r.n%2 == 0 || r.c.Replay != "") {
+			_ = os.WriteFile(decoys[0], []byte(`{"http":{"port":1,"auth_token":"decoy-from-json","use_auth":false},"db":{"engine":"decoy"},"p2p":{"max_peers":1},"webhook":{"max_tries":1},"merkleroot":{"max_block_height_excess":1}}`), 0o644)
+			_ = os.WriteFile(decoys[1], []byte("[http]\nport = 2\nauth_token = \"decoy-from-toml\"\n[db]\nengine = \"decoy\"\n"), 0o644)
+			r.c.R.Count("start-up with same-stem decoy files (.json, .toml) next to the selected file", 1)
+			defer func() {
+				for _, d := range decoys {
+					_ = os.Remove(d)
+				}
+			}()
+		}
 	}
 	nop := zerolog.Nop()
 	if err := config.SetDefaults(c20DefaultsVersion, &nop); err != nil {
